@@ -340,3 +340,18 @@ Fixpoint wf_treeb (t : tree) : bool :=
   end.
 Fixpoint nodup_strb (l : list string) : bool :=
   match l with [] => true | x :: r => negb (existsb (String.eqb x) r) && nodup_strb r end.
+
+(* ---- mutation of a tree (C07 over histories): the subtree at position p replaced by n' ------------------- *)
+Fixpoint upd_nth {A : Type} (i : nat) (g : A -> A) (l : list A) : list A :=
+  match l, i with
+  | [], _ => []
+  | x :: r, O => g x :: r
+  | x :: r, S j => x :: upd_nth j g r
+  end.
+Definition set_ch (t : tree) (ch : list tree) : tree :=
+  match t with Node c i k s _ => Node c i k s ch end.
+Fixpoint replace_at (t : tree) (p : path) (n' : tree) : tree :=
+  match p with
+  | [] => n'
+  | i :: r => set_ch t (upd_nth i (fun x => replace_at x r n') (t_ch t))
+  end.
